@@ -12,17 +12,33 @@ open BlueskyVerif.Normalizer (reservedKeys frameCounterInit frameNextIndex frame
 /-! ### lifting a property of `emitRef` to every handler -/
 
 def noGhost (o : Out) : Prop := ∀ sd g, o ≠ .streamDatum sd (some g)
+def noEvent (o : Out) : Prop := ∀ d s dt, o ≠ .event d s dt
 
-/-- a compositional relation that (i) holds for steps which emit no converted stream datum and leave the
-    frame counters alone, (ii) holds for a conversion -/
-structure Lift (P : St → List Unit → List Out → St → Prop) : Prop where
+/-- labels of one input document, given the labels `ev desc seq_num` of one event -/
+def docLab {L : Type} (ev : String → Int → List L) : Doc → List L
+  | .event e => ev e.desc e.seq
+  | .eventPage es => es.flatMap (fun e => ev e.desc e.seq)
+  | _ => []
+
+/-- a compositional relation that holds (i) for steps which emit neither a converted stream datum nor an
+    event and leave the frame counters alone, (ii) for the emission of one event document, (iii) for a
+    conversion -/
+structure Lift {L : Type} (ev : String → Int → List L) (P : St → List L → List Out → St → Prop) : Prop where
   comp : Comp P
   quiet : ∀ (a b : St) (outs : List Out), b.nextFrame = a.nextFrame → (∀ k ∈ a.intKeys, k ∈ b.intKeys) →
-    (∀ o ∈ outs, noGhost o) → P a [] outs b
+    (∀ o ∈ outs, noGhost o) → (∀ o ∈ outs, noEvent o) → P a [] outs b
+  evt : ∀ (st : St) (d : String) (s : Int) (data : List (String × DVal)), P st (ev d s) [.event d s data] st
   emit : ∀ (st : St) (d : Datum) (ref : ExtRef), (emitRef st d ref (uidOf ref.datumId)).err = none →
     P st [] (emitRef st d ref (uidOf ref.datumId)).outs (emitRef st d ref (uidOf ref.datumId)).st
 
-theorem labs_none {X : Type} (f : St → X → Res) : ∀ (xs : List X) (st : St), labs f (fun _ _ => ([] : List Unit)) st xs = [] := by
+theorem labs_none {X L : Type} (f : St → X → Res) : ∀ (xs : List X) (st : St), labs f (fun _ _ => ([] : List L)) st xs = [] := by
+  intro xs
+  induction xs with
+  | nil => intro _; rfl
+  | cons x xs ih => intro st; simp [labs, ih]
+
+theorem labs_const {X L : Type} (f : St → X → Res) (g : X → List L) : ∀ (xs : List X) (st : St),
+    labs f (fun _ x => g x) st xs = xs.flatMap g := by
   intro xs
   induction xs with
   | nil => intro _; rfl
@@ -31,37 +47,43 @@ theorem labs_none {X : Type} (f : St → X → Res) : ∀ (xs : List X) (st : St
 theorem popDatum_nextFrame {st : St} {v : DVal} {d : Datum} {st1 : St} (h : popDatum st v = some (d, st1)) :
     st1.nextFrame = st.nextFrame := (popDatum_fields h).2.1
 
-theorem Lift.eventItem_ok {P} (hL : Lift P) (st0 : St) (filled : List (String × Bool)) (e : EventIn) (st : St)
+section
+variable {L : Type} {ev : String → Int → List L} {P : St → List L → List Out → St → Prop}
+
+theorem Lift.eventItem_ok (hL : Lift ev P) (st0 : St) (filled : List (String × Bool)) (e : EventIn) (st : St)
     (kv : String × DVal) (h : (eventItem st0 filled e st kv).err = none) :
     P st [] (eventItem st0 filled e st kv).outs (eventItem st0 filled e st kv).st := by
   unfold eventItem at h ⊢
   cases hx : isExtRef st0 filled kv.1 with
-  | false => simp only [Bool.not_false, ↓reduceIte]; exact hL.quiet _ _ _ rfl (fun _ hk => hk) (by simp)
+  | false => simp only [Bool.not_false, ↓reduceIte]; exact hL.quiet _ _ _ rfl (fun _ hk => hk) (by simp) (by simp)
   | true =>
     simp only [hx, Bool.not_true, Bool.false_eq_true, ↓reduceIte] at h ⊢
     cases hp : popDatum st kv.2 with
-    | none => simp only; exact hL.quiet _ _ _ rfl (fun _ hk => hk) (by simp)
+    | none => simp only; exact hL.quiet _ _ _ rfl (fun _ hk => hk) (by simp) (by simp)
     | some p =>
       obtain ⟨d, st1⟩ := p
       simp only [hp] at h ⊢
-      have h1 : P st [] [] st1 := hL.quiet _ _ _ (popDatum_nextFrame hp) (by rw [(popDatum_fields hp).2.2.1]; exact fun _ hk => hk) (by simp)
+      have h1 : P st [] [] st1 := hL.quiet _ _ _ (popDatum_nextFrame hp)
+        (by rw [(popDatum_fields hp).2.2.1]; exact fun _ hk => hk) (by simp) (by simp)
       have h2 := hL.emit st1 d (mkRef e kv) h
       exact hL.comp.app h1 h2
 
-theorem Lift.handleEvent_ok {P} (hL : Lift P) (st : St) (e : EventIn) (h : (handleEvent st e).err = none) :
-    P st [] (handleEvent st e).outs (handleEvent st e).st := by
+theorem Lift.handleEvent_ok (hL : Lift ev P) (st : St) (e : EventIn) (h : (handleEvent st e).err = none) :
+    P st (ev e.desc e.seq) (handleEvent st e).outs (handleEvent st e).st := by
   unfold handleEvent at h ⊢
   simp only at h ⊢
   have h0 : ({ st := st, outs := [Out.event e.desc e.seq
       ((renameAll e.data).filter (fun kv => inEventKeys st (renameAll e.filled) kv.1))] } : Res).err = none := rfl
   obtain ⟨_, h2⟩ := andThen_err_none.mp h
   rw [andThen_outs h0, andThen_st h0]
-  have h3 := seqFold_spec hL.comp (eventItem st (renameAll e.filled) e) (fun _ _ => ([] : List Unit))
+  have h3 := seqFold_spec hL.comp (eventItem st (renameAll e.filled) e) (fun _ _ => ([] : List L))
     (renameAll e.data) st (fun st' x _ hx => hL.eventItem_ok st (renameAll e.filled) e st' x hx) h2
   rw [labs_none] at h3
-  exact hL.comp.app (hL.quiet st st _ rfl (fun _ hk => hk) (by intro o ho; simp at ho; subst ho; intro sd g; simp)) h3
+  have := hL.comp.app (hL.evt st e.desc e.seq
+    ((renameAll e.data).filter (fun kv => inEventKeys st (renameAll e.filled) kv.1))) h3
+  simpa using this
 
-theorem Lift.stopItem_ok {P} (hL : Lift P) (st : St) (ref : ExtRef) (h : (stopItem st ref).err = none) :
+theorem Lift.stopItem_ok (hL : Lift ev P) (st : St) (ref : ExtRef) (h : (stopItem st ref).err = none) :
     P st [] (stopItem st ref).outs (stopItem st ref).st := by
   unfold stopItem at h ⊢
   cases hp : popDatum st ref.datumId with
@@ -69,17 +91,21 @@ theorem Lift.stopItem_ok {P} (hL : Lift P) (st : St) (ref : ExtRef) (h : (stopIt
   | some p =>
     obtain ⟨d, st1⟩ := p
     simp only [hp] at h ⊢
-    exact hL.comp.app (hL.quiet _ _ [] (popDatum_nextFrame hp) (by rw [(popDatum_fields hp).2.2.1]; exact fun _ hk => hk) (by simp)) (hL.emit st1 d ref h)
+    exact hL.comp.app (hL.quiet _ _ [] (popDatum_nextFrame hp)
+      (by rw [(popDatum_fields hp).2.2.1]; exact fun _ hk => hk) (by simp) (by simp)) (hL.emit st1 d ref h)
 
-theorem Lift.handleStop_ok {P} (hL : Lift P) (st : St) (h : (handleStop st).err = none) :
+theorem Lift.handleStop_ok (hL : Lift ev P) (st : St) (h : (handleStop st).err = none) :
     P st [] (handleStop st).outs (handleStop st).st := by
   unfold handleStop at h ⊢
   obtain ⟨h1, _⟩ := andThen_err_none.mp h
   rw [andThen_outs h1, andThen_st h1]
-  have h3 := seqFold_spec hL.comp stopItem (fun _ _ => ([] : List Unit)) st.extRefs st
+  have h3 := seqFold_spec hL.comp stopItem (fun _ _ => ([] : List L)) st.extRefs st
     (fun st' x _ hx => hL.stopItem_ok st' x hx) h1
   rw [labs_none] at h3
-  exact hL.comp.app h3 (hL.quiet _ _ _ rfl (fun _ hk => hk) (by intro o ho; simp at ho; subst ho; intro sd g; simp))
+  exact hL.comp.app h3 (hL.quiet _ _ _ rfl (fun _ hk => hk)
+    (by intro o ho; simp at ho; subst ho; intro sd g; simp) (by intro o ho; simp at ho; subst ho; intro d s dt; simp))
+
+end
 
 theorem foldl_handleDatum_nextFrame : ∀ (ds : List Datum) (s : St), (ds.foldl handleDatum s).nextFrame = s.nextFrame := by
   intro ds
@@ -120,46 +146,59 @@ theorem mem_addKeys_right : ∀ (ks s : List String) (k : String), k ∈ ks → 
       · simp
     · exact ih _ k h
 
-theorem Lift.step_ok {P} (hL : Lift P) (st : St) (d : Doc) (h : (step st d).err = none) :
-    P st [] (step st d).outs (step st d).st := by
+section
+variable {L : Type} {ev : String → Int → List L} {P : St → List L → List Out → St → Prop}
+
+theorem Lift.step_ok (hL : Lift ev P) (st : St) (d : Doc) (h : (step st d).err = none) :
+    P st (docLab ev d) (step st d).outs (step st d).st := by
   cases d with
   | stop => exact hL.handleStop_ok st h
-  | start => exact hL.quiet _ _ _ rfl (fun _ hk => hk) (by intro o ho; simp [step] at ho; subst ho; intro sd g; simp)
+  | start =>
+    exact hL.quiet _ _ _ rfl (fun _ hk => hk) (by intro o ho; simp [step] at ho; subst ho; intro sd g; simp)
+      (by intro o ho; simp [step] at ho; subst ho; intro d s dt; simp)
   | descriptor dd =>
-    simp only [step] at h ⊢
+    simp only [step, docLab] at h ⊢
     cases hc : descClash dd with
     | true => simp [handleDescriptor, hc] at h
     | false =>
       simp only [handleDescriptor, hc, Bool.false_eq_true, ↓reduceIte]
-      exact hL.quiet _ _ _ rfl (fun k hk => mem_addKeys_left _ _ k hk) (by intro o ho; simp at ho; subst ho; intro sd g; simp)
+      exact hL.quiet _ _ _ rfl (fun k hk => mem_addKeys_left _ _ k hk)
+        (by intro o ho; simp at ho; subst ho; intro sd g; simp) (by intro o ho; simp at ho; subst ho; intro d s dt; simp)
   | resource uid valid =>
-    simp only [step] at h ⊢
+    simp only [step, docLab] at h ⊢
     cases valid with
     | false => simp at h
-    | true => simp only [Bool.not_true, Bool.false_eq_true, ↓reduceIte]; exact hL.quiet _ _ _ rfl (fun _ hk => hk) (by simp)
+    | true =>
+      simp only [Bool.not_true, Bool.false_eq_true, ↓reduceIte]
+      exact hL.quiet _ _ _ rfl (fun _ hk => hk) (by simp) (by simp)
   | streamResource uid dk valid =>
-    simp only [step] at h ⊢
+    simp only [step, docLab] at h ⊢
     cases valid with
     | false => simp at h
     | true =>
       simp only [Bool.not_true, Bool.false_eq_true, ↓reduceIte]
       exact hL.quiet _ _ _ rfl (fun _ hk => hk) (by intro o ho; simp at ho; subst ho; intro sd g; simp)
-  | datum dd => exact hL.quiet _ _ _ rfl (fun _ hk => hk) (by simp [step])
+        (by intro o ho; simp at ho; subst ho; intro d s dt; simp)
+  | datum dd => exact hL.quiet _ _ _ rfl (fun _ hk => hk) (by simp [step]) (by simp [step])
   | datumPage ds =>
     exact hL.quiet _ _ _ (by simp [step, foldl_handleDatum_nextFrame])
-      (by simp only [step, foldl_handleDatum_intKeys]; exact fun _ hk => hk) (by simp [step])
+      (by simp only [step, foldl_handleDatum_intKeys]; exact fun _ hk => hk) (by simp [step]) (by simp [step])
   | event e => exact hL.handleEvent_ok st e h
   | eventPage es =>
-    simp only [step] at h ⊢
-    have h3 := seqFold_spec hL.comp handleEvent (fun _ _ => ([] : List Unit)) es st
+    simp only [step, docLab] at h ⊢
+    have h3 := seqFold_spec hL.comp handleEvent (fun _ e => ev e.desc e.seq) es st
       (fun st' x _ hx => hL.handleEvent_ok st' x hx) h
-    rwa [labs_none] at h3
-  | streamDatum sd => exact hL.quiet _ _ _ rfl (fun _ hk => hk) (by intro o ho; simp [step] at ho; subst ho; intro sd g; simp)
+    rwa [labs_const] at h3
+  | streamDatum sd =>
+    exact hL.quiet _ _ _ rfl (fun _ hk => hk) (by intro o ho; simp [step] at ho; subst ho; intro sd g; simp)
+      (by intro o ho; simp [step] at ho; subst ho; intro d s dt; simp)
 
-theorem Lift.run_ok {P} (hL : Lift P) (st : St) (ds : List Doc) (h : (runFrom st ds).err = none) :
-    P st [] (runFrom st ds).outs (runFrom st ds).st := by
-  have h3 := seqFold_spec hL.comp step (fun _ _ => ([] : List Unit)) ds st (fun st' x _ hx => hL.step_ok st' x hx) h
-  rwa [labs_none] at h3
+theorem Lift.run_ok (hL : Lift ev P) (st : St) (ds : List Doc) (h : (runFrom st ds).err = none) :
+    P st (ds.flatMap (docLab ev)) (runFrom st ds).outs (runFrom st ds).st := by
+  have h3 := seqFold_spec hL.comp step (fun _ d => docLab ev d) ds st (fun st' x _ hx => hL.step_ok st' x hx) h
+  rwa [labs_const] at h3
+
+end
 
 /-! ### every converted stream datum has the right index arithmetic -/
 
@@ -200,20 +239,23 @@ theorem convert_ranges {st : St} {d : Datum} {ref : ExtRef} {st' : St} {i0 i1 : 
 
 def PG (_ : St) (_ : List Unit) (outs : List Out) (_ : St) : Prop := ∀ o ∈ outs, GoodOut o
 
-theorem PG_lift : Lift PG where
+def noLab : String → Int → List Unit := fun _ _ => []
+
+theorem PG_lift : Lift noLab PG where
   comp := ⟨fun _ o ho => by simp at ho, fun h1 h2 o ho => by
     simp only [List.mem_append] at ho
     rcases ho with ho | ho
     · exact h1 o ho
     · exact h2 o ho⟩
   quiet := by
-    intro a b outs _ _ hq o ho
+    intro a b outs _ _ hq _ o ho
     cases o with
     | streamDatum sd g =>
       cases g with
       | none => trivial
       | some g => exact absurd rfl (hq _ ho sd g)
     | _ => trivial
+  evt := by intro st d s data o ho; simp at ho; subst ho; trivial
   emit := by
     intro st d ref h o ho
     obtain ⟨st', i0, i1, name, pre, sd, hc, hout, _, hsd, _, _, _, hpre⟩ := emitRef_ok h
@@ -318,7 +360,7 @@ theorem framed_noGhost (nk : String × String) (outs : List Out) (h : ∀ o ∈ 
       | some g => exact absurd rfl (ho sd g)
     | _ => simp [framedOf]
 
-theorem PT_lift (nk : String × String) : Lift (PT nk) where
+theorem PT_lift (nk : String × String) : Lift noLab (PT nk) where
   comp := ⟨fun st => ⟨by simp [framed, tile], by simp [framed, tileEnd]⟩, by
     intro a b c l1 l2 o1 o2 h1 h2
     obtain ⟨t1, e1⟩ := h1
@@ -326,10 +368,14 @@ theorem PT_lift (nk : String × String) : Lift (PT nk) where
     rw [e1] at t2 e2
     exact ⟨by rw [framed_append, tile_append]; exact ⟨t1, t2⟩, by rw [framed_append, tileEnd_append]; exact e2⟩⟩
   quiet := by
-    intro a b outs hnf _ hq
+    intro a b outs hnf _ hq _
     have : counterSum b nk = counterSum a nk := by simp [counterSum, hnf]
     rw [PT, framed_noGhost nk outs hq]
     exact ⟨trivial, this⟩
+  evt := by
+    intro st d s data
+    rw [PT, framed_noGhost nk _ (by intro o ho; simp at ho; subst ho; intro sd g; simp)]
+    exact ⟨trivial, rfl⟩
   emit := by
     intro st d ref h
     obtain ⟨st', i0, i1, name, pre, sd, hc, hout, _, hsd, _, hnf, _, hpre⟩ := emitRef_ok h
@@ -385,9 +431,10 @@ theorem framed_tile (nk : String × String) (ds : List Doc) (h : (run ds).err = 
 
 def PM (a : St) (_ : List Unit) (_ : List Out) (b : St) : Prop := ∀ k ∈ a.intKeys, k ∈ b.intKeys
 
-theorem PM_lift : Lift PM where
+theorem PM_lift : Lift noLab PM where
   comp := ⟨fun _ _ hk => hk, fun h1 h2 k hk => h2 k (h1 k hk)⟩
-  quiet := fun _ _ _ _ h _ => h
+  quiet := fun _ _ _ _ h _ _ => h
+  evt := fun _ _ _ _ _ hk => hk
   emit := by
     intro st d ref h k hk
     obtain ⟨st', i0, i1, name, pre, sd, hc, _, _, _, _, _, hik, _⟩ := emitRef_ok h
@@ -411,6 +458,45 @@ theorem first_frame_range {st : St} {d : Datum} {ref : ExtRef} {st' : St} {i0 i1
     have hc : ¬ ((0 : Int) + (f + 1) < 0 + 0) := by omega
     simp [hc] at h2
     omega
+
+/-! ### every input event is re-emitted exactly once, in order -/
+
+def PE (_ : St) (evs : List (String × Int)) (outs : List Out) (_ : St) : Prop := outs.flatMap eventOf = evs
+
+theorem flatMap_eventOf_noEvent (outs : List Out) (h : ∀ o ∈ outs, noEvent o) : outs.flatMap eventOf = [] := by
+  induction outs with
+  | nil => rfl
+  | cons o rest ih =>
+    simp only [List.flatMap_cons, ih (fun o' ho' => h o' (by simp [ho'])), List.append_nil]
+    have ho := h o (by simp)
+    cases o with
+    | event d s dt => exact absurd rfl (ho d s dt)
+    | _ => rfl
+
+theorem PE_lift : Lift (fun d s => [(d, s)]) PE where
+  comp := ⟨fun _ => rfl, by
+    intro a b c l1 l2 o1 o2 h1 h2
+    simp only [PE, List.flatMap_append] at *
+    rw [h1, h2]⟩
+  quiet := fun _ _ outs _ _ _ he => flatMap_eventOf_noEvent outs he
+  evt := fun _ _ _ _ => rfl
+  emit := by
+    intro st d ref h
+    obtain ⟨st', i0, i1, name, pre, sd, _, hout, _, _, _, _, _, hpre⟩ := emitRef_ok h
+    rw [PE, hout]
+    apply flatMap_eventOf_noEvent
+    intro o ho
+    simp only [List.mem_append, List.mem_singleton] at ho
+    rcases ho with ho | ho
+    · obtain ⟨u, k, hu⟩ := hpre o ho
+      subst hu; intro d s dt; simp
+    · subst ho; intro d s dt; simp
+
+/-- the (descriptor, seq_num) of the event documents emitted in a run = those of the input events
+    (pages unpacked), in the same order, each exactly once -/
+theorem events_in_order (ds : List Doc) (h : (run ds).err = none) :
+    (run ds).outs.flatMap eventOf = ds.flatMap (docLab (fun d s => [(d, s)])) :=
+  PE_lift.run_ok {} ds h
 
 /-- a converted frame-based range is NON-EMPTY unless the datum repeats the frame number the counter
     already stands at (`frame + 1 = index`): see Counterexamples/C35.lean for that case -/
